@@ -457,7 +457,7 @@ func (fv *FuncVer) step(st *State, ins ssa.Instruction) bool {
 			fv.oblige(st, "bounds", fv.anchorAt(x.Pos(), "slice-to-array"), x.Pos(), ok, "slice to array pointer conversion length")
 		}
 		st.assume(ok)
-		if _, isB := isByteArray(at); isB && n >= opaqueByteArrayMin {
+		if _, isB := isByteArray(at); isB && n >= fv.ctx.opaqueMin {
 			// opaque array viewed through a byte slice: value determined by the bytes
 			et := at.Underlying().(*types.Array).Elem()
 			key, hs := fv.elemsKey(et)
@@ -685,7 +685,7 @@ func (fv *FuncVer) goEqual(st *State, a, b Val, t types.Type) *Term {
 				cs = append(cs, fv.goEqual(st, Field(x, i), Field(y, i), u.Field(i).Type()))
 			}
 			// keep the plain equality too: it is equivalent and cheaper for the solver when no arrays are inside
-			if !containsArray(u) {
+			if !fv.containsArray(u) {
 				return Eq(x, y)
 			}
 			return And(cs...)
@@ -694,16 +694,16 @@ func (fv *FuncVer) goEqual(st *State, a, b Val, t types.Type) *Term {
 	return Eq(x, y)
 }
 
-func containsArray(s *types.Struct) bool {
+func (fv *FuncVer) containsArray(s *types.Struct) bool {
 	for i := 0; i < s.NumFields(); i++ {
 		switch u := types.Unalias(s.Field(i).Type()).Underlying().(type) {
 		case *types.Array:
-			if n, ok := isByteArray(s.Field(i).Type()); ok && n >= opaqueByteArrayMin {
+			if n, ok := isByteArray(s.Field(i).Type()); ok && n >= fv.ctx.opaqueMin {
 				continue
 			}
 			return true
 		case *types.Struct:
-			if containsArray(u) {
+			if fv.containsArray(u) {
 				return true
 			}
 		}
@@ -721,8 +721,12 @@ func (fv *FuncVer) indexAddr(st *State, x *ssa.IndexAddr) {
 		ln := Field(sl, 2)
 		ok := And(c.WLe(c.WLit(0), idx), c.WLt(idx, ln))
 		fv.boundsCheck(st, ok, x.Pos(), "index")
-		f.regs[x] = &Loc{Kind: rootElems, Ref: Field(sl, 0), Typ: u.Elem(), ElTyp: u.Elem(),
+		l := &Loc{Kind: rootElems, Ref: Field(sl, 0), Typ: u.Elem(), ElTyp: u.Elem(),
 			Path: []Sel{{Index: c.WAdd(Field(sl, 1), idx)}}}
+		if g := fv.immutableGlobalSlice(sl); g != "" {
+			l.GlobalSlice, l.RelIndex = g, idx
+		}
+		f.regs[x] = l
 	case *types.Pointer:
 		at := u.Elem()
 		arr := at.Underlying().(*types.Array)
@@ -730,7 +734,7 @@ func (fv *FuncVer) indexAddr(st *State, x *ssa.IndexAddr) {
 		fv.boundsCheck(st, ok, x.Pos(), "index")
 		l := fv.locOf(fv.val(st, x.X), at)
 		fv.checkNonNil(st, l, x.Pos(), x)
-		if n, isB := isByteArray(at); isB && n >= opaqueByteArrayMin {
+		if n, isB := isByteArray(at); isB && n >= fv.ctx.opaqueMin {
 			panic(unsupported("indexing into opaque byte array"))
 		}
 		f.regs[x] = l.extend(Sel{Index: idx, Typ: at}, arr.Elem())
@@ -829,7 +833,7 @@ func (fv *FuncVer) slice(st *State, x *ssa.Slice) {
 		fv.boundsCheck(st, ok, x.Pos(), "slice")
 		l := fv.locOf(fv.val(st, x.X), at)
 		var base *Term
-		if nb, isB := isByteArray(at); isB && nb >= opaqueByteArrayMin {
+		if nb, isB := isByteArray(at); isB && nb >= fv.ctx.opaqueMin {
 			// read-only byte view of an opaque array value
 			v := fv.term(fv.load(st, l))
 			base = fv.newRef(st)
